@@ -206,7 +206,8 @@ impl<'a> Gen<'a> {
                         1 => s.push('-'),
                         _ => {}
                     }
-                    let lim = *r.pick(&[10u64, 30, 300]);
+                    // 25 digits x 10^279 stays finite
+                    let lim = *r.pick(&[10u64, 30, 280]);
                     s.push_str(&format!("{}", r.below(lim)));
                 }
                 s
